@@ -7,6 +7,8 @@ CONSTANTS
   MaxPuts = 4
   MaxRestarts = 1
   LoseOpenOnRestart = FALSE
-INVARIANTS NothingMoves AnswerIsStored
+  UseMemWhenOpen = TRUE
+  NamesFromAll = TRUE
+INVARIANTS NothingMoves AnswerIsStored AnswerComplete
 VIEW View
 CHECK_DEADLOCK FALSE
